@@ -1329,6 +1329,12 @@ def get_path(root, path, default=_UNSET):
                     seg = int(seg)
                     cur = cur[seg]
                 except (ValueError, KeyError, IndexError, TypeError):
+                    if isinstance(cur, Set) and isinstance(seg, int) \
+                       and 0 <= seg < len(cur):
+                        # remap() and research() address the members
+                        # of a set by position in iteration order
+                        cur = next(itertools.islice(cur, seg, None))
+                        continue
                     if not is_iterable(cur):
                         exc = TypeError('%r object is not indexable'
                                         % type(cur).__name__)
